@@ -409,8 +409,19 @@ func (c *Check) notificationFromErr(rule string) {
 	if fn == nil {
 		return
 	}
+	// a slot of the walk's working state: a captured variable (named by the
+	// variable) or a field of a struct local to this function (named by the field)
 	cellName := func(e *Expr) string {
-		if e.Op != "ld" || e.Args[0].Op != "alloc" {
+		if e == nil || e.Op != "ld" {
+			return ""
+		}
+		if e.Args[0].Op == "fa" {
+			if r := rootOf(e.Args[0]); r != nil && (r.Op == "alloc" || r.Op == "param") {
+				return e.Args[0].S
+			}
+			return ""
+		}
+		if e.Args[0].Op != "alloc" {
 			return ""
 		}
 		name := strings.TrimSuffix(e.Args[0].S, "#")
@@ -430,8 +441,22 @@ func (c *Check) notificationFromErr(rule string) {
 			return nil, false
 		}
 	}
+	// the tree walker (a recursive closure or a recursive helper) is an opaque
+	// writer of the slots in the case analysis below
+	noInline := map[string]bool{}
+	for _, g := range deepFuncs(fn) {
+		if g == fn {
+			continue
+		}
+		for _, cl := range p.callsIn(g, func(string) bool { return true }) {
+			if p.staticLocalCallee(cl) == g {
+				noInline[p.Name(g)] = true
+			}
+		}
+	}
 	a := NewAnalysis(p, fn)
 	a.AtomHook = errNN(0)
+	a.NoInline = noInline
 	a.Run()
 	ok := len(a.Returns) > 0
 	for _, r := range a.Returns {
@@ -456,6 +481,7 @@ func (c *Check) notificationFromErr(rule string) {
 			}
 			return nil, false
 		})
+		b.NoInline = noInline
 		b.Run()
 		name := "nothing extracted => generic (3,0)"
 		if k < len(order) {
@@ -497,19 +523,47 @@ func (c *Check) notificationFromErr(rule string) {
 	for _, g := range fn.AnonFuncs {
 		walk = g
 	}
+	if walk == nil {
+		// a recursive helper called from here
+		for _, g := range deepFuncs(fn) {
+			if g == fn {
+				continue
+			}
+			for _, cl := range p.callsIn(g, func(string) bool { return true }) {
+				if p.staticLocalCallee(cl) == g {
+					walk = g
+				}
+			}
+		}
+	}
 	if walk != nil {
 		n := 0
-		allInstrs(walk, func(in ssa.Instruction) {
+		// slotKey names the slot an address denotes inside the walker
+		slotKey := func(v ssa.Value) string {
+			switch x := v.(type) {
+			case *ssa.FreeVar:
+				if x.Name() == "unwrap" {
+					return ""
+				}
+				return "var " + x.Name()
+			case *ssa.FieldAddr:
+				if _, isP := x.X.(*ssa.Parameter); isP {
+					return "field " + structFieldName(x)
+				}
+			}
+			return ""
+		}
+		ownInstrs(walk, func(in ssa.Instruction) {
 			st, ok := in.(*ssa.Store)
 			if !ok {
 				return
 			}
-			fv, ok := st.Addr.(*ssa.FreeVar)
-			if !ok || fv.Name() == "unwrap" {
+			key := slotKey(st.Addr)
+			if key == "" {
 				return
 			}
 			n++
-			// guarded by `cell == nil`
+			// guarded by `slot == nil`
 			b := st.Block()
 			okG := len(b.Preds) == 1
 			if okG {
@@ -520,11 +574,11 @@ func (c *Check) notificationFromErr(rule string) {
 					okG = isB && bo.Op.String() == "=="
 					if okG {
 						ld, isL := bo.X.(*ssa.UnOp)
-						okG = isL && ld.X == ssa.Value(fv)
+						okG = isL && slotKey(ld.X) == key
 					}
 				}
 			}
-			c.require(okG, rule, p.Name(walk), "first-wins: "+fv.Name(), p.InstrPos(in), "the earliest error of a class is kept (assignment only while the slot is nil)")
+			c.require(okG, rule, p.Name(walk), "first-wins: "+key, p.InstrPos(in), "the earliest error of a class is kept (assignment only while the slot is nil)")
 		})
 		c.floor(rule, n, 4, "class slots assigned in the tree walk")
 		// after a *Notification is found nothing below it is visited
@@ -551,7 +605,7 @@ func (c *Check) notificationFromErr(rule string) {
 				hit := pathSearch(walk, okBlk.Instrs[0], func(x ssa.Instruction) bool {
 					if ci, isC := x.(ssa.CallInstruction); isC {
 						d := p.calleeDesc(ci)
-						return strings.HasPrefix(d, "dyn:") || strings.HasPrefix(d, "invoke:")
+						return strings.HasPrefix(d, "dyn:") || strings.HasPrefix(d, "invoke:") || p.staticLocalCallee(ci) == walk
 					}
 					return false
 				}, nil)
